@@ -43,7 +43,8 @@ Record h5gen := {
   g_prop_prefix : bool; g_none_notes : list (option string); g_absent_temp : option string;
   g_builder_strings : list (string * list (string * bool));
   g_refusals : list (string * bool); g_delay_units : list (string * bool); g_select : list selprobe;
-  g_zero : list (string * string * string * bool) }.
+  g_zero : list (string * string * string * bool);
+  g_precision : list (string * string * string * bool); g_merge : list (string * bool) }.
 
 (* ------------------------------------------------------------------ small boolean equalities *)
 Definition cst_eqb (a b : cst) : bool :=
@@ -533,5 +534,19 @@ Definition zero_ok (g : h5gen) : bool :=
         | Some _ => existsb (fun x => String.eqb (fst (fst (fst x))) kind && String.eqb (snd (fst (fst x))) v && String.eqb (snd (fst x)) f) (g_zero g)
         end) (vfields kind v)) (variants_of kind)) ["projection"; "electrical"; "continuous"; "inputlist"].
 Definition failing_zero (g : h5gen) : list (string * string * string) := map (fun x => fst x) (filter (fun x => negb (snd x)) (g_zero g)).
+(* the builder keeps float arguments with many significant digits / extreme magnitudes to float32 precision, for every float
+   argument of every kind (it formats some of them into strings: delays, input fractions) *)
+Definition precision_ok (g : h5gen) : bool :=
+  forallb (fun x => snd x) (g_precision g)
+  && forallb (fun ka => existsb (fun x => String.eqb (fst (fst (fst x))) (fst ka) && String.eqb (snd (fst (fst x))) (snd ka)) (g_precision g))
+       [("projection", "delay"); ("projection", "weight"); ("projection", "preFract"); ("projection", "postFract");
+        ("electrical", "weight"); ("electrical", "preFract"); ("continuous", "weight"); ("continuous", "postFract");
+        ("inputlist", "fract"); ("inputlist", "weight"); ("population", "x"); ("population", "y"); ("population", "z")].
+Definition failing_precision (g : h5gen) : list (string * string * string) := map (fun x => fst x) (filter (fun x => negb (snd x)) (g_precision g)).
+(* the merge of the embedded XML into the loaded document (utils.add_all_to_document) *)
+Definition merge_ok (g : h5gen) : bool :=
+  forallb (fun n => match assoc n (g_merge g) with Some b => b | None => false end)
+    ["idless_component_types_all_merged"; "idless_properties_all_merged"; "same_id_same_list_not_duplicated";
+     "order_of_the_others_kept"; "same_id_in_other_lists_merged"; "source_untouched"].
 Definition failing_select (g : h5gen) : list (string * string * list (option string)) :=
   map (fun p => (sp_kind p, sp_off p, sp_names p)) (filter (fun p => negb (selprobe_ok g p)) (g_select g)).
